@@ -70,6 +70,97 @@ CHECKS = [
               "BoundaryProjection; TLC checks the index maps against the reference (offsets by list order, interleaved vector ordering), "
               "restriction o prolongation = identity, full list = permutation, mortar blocks at the matching offsets with zero blocks for absent grids.",
          note="Per-interface scalar projections are read from the real MortarGrid (their correctness is C26); co-dimension-2 interfaces are not generated."),
+    dict(id="C06", level=MC, technique="TLC enumerates equation histories x selections x variable subsets (spec/ref/AssemblyEnum.tla) and judges "
+         "EquationSystem.assemble on a labelled system against spec/ref/AssemblyRef.tla (J_Assembly)",
+         text="Equations are sum_v SparseArray(M) @ v + DenseArray(c) whose entries are unique integer codes of (row label, column label), so the rows "
+              "and columns of any assembled Jacobian / residual are read back exactly. TLC enumerates ~2e5 cases (set/remove/update_equation histories of "
+              "3 equations on subdomains / interfaces / a grid subset; selections by name or Operator in every order; restrictions to grid subsets incl. "
+              "empty and reversed; disjoint variable arguments by name, md-variable, atomic) and checks rows, columns, residual, reported indices per "
+              "equation and residual-only assembly against the reference slice of the full system in registry order.",
+         note="Quick executes a seeded sample of 1500 of the enumerated cases, thorough all. Variable arguments naming a variable twice are outside the family."),
+    dict(id="C28", level=MC, technique="TLC enumerates all canonical lattice segment pairs with the exact rational intersection (spec/ref/SegIsect*.tla) "
+         "and judges segments_2d / segments_3d outputs for all 8 argument orders (J_SegIsect)",
+         text="Every pair of non-degenerate segments with endpoints in {0..3}^2 (2D) and {0..1}^3 plus seeded coplanar/parallel pairs (quick) / all of "
+              "{0..2}^3 (thorough) is classified none / point / segment by exact arithmetic in TLA+; the real functions must return the same kind and points "
+              "(as point sets) independent of argument order.",
+         note="Integer coordinates (the property's 'well-separated degeneracies'); 3D boxes beyond {0..2}^3 only seeded."),
+    dict(id="C29", level=EX, technique="TLC enumerates contact-bearing lattice segment sets (spec/ref/SegSplitEnum.tla) and judges the output of "
+         "split_intersecting_segments_2d with the exact predicate ValidSplit (J_SegSplit)",
+         text="The output is not unique, so it is validated: edges meet only at shared endpoints, lie on their mapped input segment and carry its tags, cover "
+              "every input segment, no duplicate edges or points - all evaluated by TLC in integer arithmetic on the rationalised output.",
+         note="Sets of 2-3 segments exhaustively in small boxes plus seeded 3-4 segment sets; coincident input point columns are outside the family (callers uniquify first)."),
+    dict(id="C33", level=MC, technique="TLC enumerates pairs of partitions of a lattice segment and pairs from a triangulation catalogue (spec/ref/TessEnum.tla) and "
+         "judges line_tessellation/match_1d and triangulations/match_2d outputs (J_Tessellation)",
+         text="1D: every pair of integer partitions of [0,N], embedded along integer directions, overlaps compared with the exact interval intersections and the "
+              "row/column-sum laws; 2D: catalogue and seeded Delaunay triangulations judged by the laws (non-negative, sums to the cell measure, averaged rows = 1, "
+              "integrated columns = 1) with exact areas.",
+         note="2D is law-only (no reference clipping). One known finding (match_2d counts a touching pair) suppresses exactly that class. surface_tessellations not covered."),
+    dict(id="C31", level=MC, technique="TLC enumerates lattice points / polygons / polyhedra / point orders (spec/ref/PredicateFamilies.tla) and judges the real predicates "
+         "and sorting helpers against exact integer predicates (J_Predicates)",
+         text="point_in_polygon, point_in_cell, point_in_polyhedron, half-space intersection, ccw, planarity and collinearity are compared with exact arithmetic on all "
+              "lattice and half-lattice points against a catalogue of convex and non-convex polygons / polyhedra (boundary points excluded by exact predicates); "
+              "sort_point_pairs, sort_multiple_point_pairs, sort_points_on_line, sort_point_plane, sort_triangle_edges are validated by chain/order predicates.",
+         note="One known finding (point_in_polyhedron, interior point in a supporting plane of a non-convex polyhedron) suppresses exactly that class."),
+    dict(id="C30", level=TV, technique="TLC enumerates lattice configurations with exact squared distances (spec/ref/Distance*.tla) and judges the real distance functions "
+         "(J_Distance)",
+         text="point-point, point-segment, segment-segment, point-polygon and segment-polygon distances are compared (squared, as rationals) with the exact reference and "
+              "the returned closest points must lie on the objects at that distance; families include parallel, collinear, touching and skew placements in 2D/3D.",
+         note="Doubles are converted to rationals with a 1e-9 relative tolerance (0 inconclusive cases). One known finding (segment_set always raises)."),
+    dict(id="C44", level=TV, technique="TLC enumerates lattice segments x polygons and convex polygons x tilings (spec/ref/ClipFamilies.tla) and judges lines_by_polygon / "
+         "polygons_by_polyhedron outputs with exact predicates (J_Clip)",
+         text="lines_by_polygon: returned pieces lie inside and their union equals the exact inside intervals, tags carried; polygons_by_polyhedron: validated through "
+              "convex tilings (containment of piece vertices and edge midpoints, area conservation over the tiling).",
+         note="Segments overlapping the polygon boundary are excluded (the property's family). Polygon clipping is validated by conservation, not by an exact clipped "
+              "polygon; only convex polygons (documented domain). One known finding (polyhedron edge in the polygon's plane)."),
+    dict(id="C19", level=TV, technique="TLC enumerates tensor grids (spec/ref/GridFam.tla) and judges compute_geometry output against exact geometry and the divergence-theorem "
+         "identities of spec/lib/GridGeom.tla (J_GridGeom)",
+         text="Cartesian/tensor/simplex grids in 1D-3D, re-orientations, shears, lattice perturbations, hand-built polygons/prisms with hanging nodes: porepy's own numbers "
+              "must satisfy positivity, volume sum, |n| = area, outward normals, closedness, divergence and centroid identities, and equal the exact values (shoelace / "
+              "signed tetrahedra), all in exact rational arithmetic.",
+         note="Integer node coordinates; non-planar faces and other inputs outside the property's family are decided by TLC and counted, not judged."),
+    dict(id="C20", level=TV, technique="TLC computes R x + t exactly for rational rigid motions and judges compute_geometry of the moved grid (J_Equivariance)",
+         text="24 signed permutations, integer-quaternion rotations with |q|^2 in {9,25,49}, products and integer translations applied to the C19 families (1D/2D grids "
+              "embedded in 3D through them): volumes and areas unchanged, centres and normals transformed by the same motion, exactly.",
+         note="map_grid itself is not covered (compute_geometry does not call it)."),
+    dict(id="C23", level=TV, technique="TLC judges refine_grid_1d, remesh_1d, refine_triangle_grid, extrude_grid, extrude_mdg, structured_refinement outputs with the exact "
+         "predicates of spec/ref/Refine.tla (J_Refine)",
+         text="Total measure equal (times height), each child inside its parent (exact point-in-cell), each child exactly one parent, valid grids; refine_grid_1d also "
+              "compared with Refine1dRef; structured refinement maps each fine cell to the unique containing coarse cell.",
+         note="1D extrusion bases along coordinate axes only; the face_map of extrusion and mortar grids of extrude_mdg are not judged."),
+    dict(id="C21", level=MC, technique="TLC enumerates abstract cell complexes (spec/ref/GridComplexes.tla), instantiated as pp.Grid, and judges the connectivity queries against "
+         "spec/ref/GridTopology.tla (J_GridTopology); real grids exported as incidence are judged the same way",
+         text="cell_faces_as_dense, cell_connection_map (symmetric), boundary tags (exactly one adjacent cell), signs_and_cells_of_boundary_faces (scrambled face lists), "
+              "cell_nodes and divergence(d) = Div kron I_d for d = 1..3, on chains / quad / triangle patches with holes, split faces, orientation masks, and on Cartesian, "
+              "simplex, fractured and extracted real grids. Exact integer comparison.",
+         note="Complexes up to 8 cells."),
+    dict(id="C22", level=MC, technique="TLC enumerates (fine, coarse) pairs and cell subsets (spec/ref/PartitionEnum.tla) and judges partition_structured, partition_coordinates, "
+         "overlap and extract_subgrid against spec/ref/Partition.tla (J_Partition)",
+         text="Every (fine, coarse) with fine <= 7 per direction in 2D (3D sample): one id per cell within range, each part a box; overlap equals the k-fold closed "
+              "neighbourhood (node / face criterion); extract_subgrid on every non-empty cell subset of small grids: injective index maps, induced incidence, geometry "
+              "equal to the parent's on the mapped entities (exact rationals).",
+         note="partition_metis not covered (pymetis absent). partition_coordinates connectivity check is reported as DRIFT only (not in the statement)."),
+    dict(id="C17", level=MC, technique="TLC enumerates flux-sign / boundary-type assignments on complexes and divergence-free fluxes from integer stream functions "
+         "(spec/ref/UpwindEnum.tla) and judges the real Upwind matrices and an exact explicit step (J_Upwind)",
+         text="On every nonzero-flux face the upwind matrix selects exactly the cell the flux leaves (none on Neumann and Dirichlet-inflow faces), boundary matrices have "
+              "exact support, Kronecker expansion for 1-3 components; an explicit step computed by TLC in rationals from porepy's own matrices conserves the total and "
+              "stays within the initial bounds under the CFL limit.",
+         note="Zero-flux faces are outside the selection clause; transport only in 2D; Robin faces excluded."),
+    dict(id="C46", level=MC, technique="TLC model-checks the dictionary clauses on the transition graph recorded from the real SparseNdArray (M_SparseNd); every recorded edge "
+         "trace-validated against spec/sys/SparseNd.tla (T_SparseNd); design check Impl represents Ref",
+         text="Histories of up to 3 add calls (batches of up to 3 coordinates with duplicates, additive and overwriting) and reads at every state, in 1-D and 2-D boxes of "
+              "side 3: every read returns what a dictionary would hold, reading a never-inserted coordinate raises, reads do not write.",
+         note="Values are small integers; 2-D box uses a seeded choice of batches per state in quick."),
+    dict(id="C34", level=MC, technique="TLC enumerates clustered lattice point sequences and column sets (spec/ref/UniquifyEnum.tla, SetMemberEnum.tla) and judges "
+         "uniquify_point_set, fracs.utils.uniquify_points, ismember_columns, intersect_sets (J_Uniquify)",
+         text="Well-separated clusters (the property's family): one representative per cluster = first-occurring member, in order of first occurrence, both index maps; "
+              "membership and tolerance-based intersection agree with brute force.",
+         note="One known finding (norm pre-clustering splits a cluster straddling first_norm + tol), matched structurally (cross-checked against TLC's Straddle predicate)."),
+    dict(id="C39", level=MC, technique="TLC enumerates assignment programs (spec/sys/BoundaryCond.tla) and judges the flag arrays of real BoundaryCondition / "
+         "BoundaryConditionVectorial objects (J_BoundaryCond)",
+         text="Every program of up to 3 (faces, cond) assignments over 4 boundary faces with duplicates, in index and mask form, via the constructor and set_bc / "
+              "internal_to_dirichlet (vectorial), on Cartesian, simplex and split fractured grids: exactly one flag on boundary faces per component, none on interior "
+              "non-fracture faces, unassigned boundary faces Neumann.",
+         note="Quick covers vectorial programs of up to 2 assignments plus constructor-only 3-assignment programs; thorough is exhaustive."),
 ]
 
 _NOT_BUILT = "check not built yet (planned, DESIGN.md section 10); not claimed until its commands are green on the unchanged tree"
